@@ -244,7 +244,7 @@ theorem ignored_pass_is_identity (T : Target) (opts : List OptInst) (c : Config)
 failing option in the list, `generic.NewDriver` succeeds whatever the options target. -/
 theorem construct_generic_succeeds (opts : List OptInst) (c : Config) (hv : AllValid opts) :
     ∃ c', construct .generic opts c = .ok c' :=
-  ⟨_, constructGeneric_valid c hv⟩
+  ⟨_, constructGeneric_valid c (validOn_of_allValid _ hv)⟩
 
 /-! ## `options_commute` -/
 
@@ -343,7 +343,7 @@ theorem generic_settings (opts : List OptInst) (c : Config) (hv : AllValid opts)
         c' f = if f.target ∈ genericReached opts c then fieldAfter f.target opts f (c f) else c f) ∧
       c' .generic_Driver_Logger =
         fillLogger .generic_Driver_Logger (afterPass .generic_Driver opts c) .generic_Driver_Logger :=
-  constructGeneric_field c hv
+  constructGeneric_field c (validOn_of_allValid _ hv)
 
 /-- All four constructors, all settings at once, any option list of any length: when no option
 fails, the driver that comes back is exactly the declarative one — every field of every object
@@ -352,13 +352,37 @@ default (last replacement wins, appends accumulate), every other field keeps its
 network driver derives its prompt pattern from the privilege levels (and demands them), the
 NETCONF driver takes transport type and logger from the generic driver and uses the NETCONF
 delimiter as prompt. -/
-theorem construct_eq_spec (k : Ctor) (opts : List OptInst) (c : Config)
-    (hv : AllValid (effective k opts)) : construct k opts c = specConfig k opts c := by
+theorem construct_eq_spec_reached (k : Ctor) (opts : List OptInst) (c : Config)
+    (hv : ValidOn (reached k opts c) (effective k opts)) : construct k opts c = specConfig k opts c := by
   cases k with
   | generic => exact constructGeneric_eq_spec c hv
   | network => exact constructNetwork_eq_spec c hv
   | netconf => exact constructNetconf_eq_spec c hv
-  | logging => exact pass_valid c hv
+  | logging => exact pass_validOn c (hv .logging_Instance (by simp [reached]))
+
+/-- the weaker hypothesis follows from "no option fails anywhere" -/
+theorem construct_eq_spec (k : Ctor) (opts : List OptInst) (c : Config)
+    (hv : AllValid (effective k opts)) : construct k opts c = specConfig k opts c :=
+  construct_eq_spec_reached k opts c (validOn_of_allValid _ hv)
+
+/-- **Options that do not apply are ignored even when their value is bad.** An option that would
+fail on its own target (an ssh config / known-hosts file that does not exist) does not make a
+constructor fail when that target is never built — telnet, file or custom transport: the driver
+comes back, exactly as the declarative reading says, and nothing of that option lands. -/
+theorem failing_option_for_unbuilt_object_is_ignored (k : Ctor) (opts : List OptInst) (c : Config)
+    (hv : ValidOn (reached k opts c) (effective k opts)) :
+    ∃ r, construct k opts c = r ∧ r = specConfig k opts c :=
+  ⟨_, rfl, construct_eq_spec_reached k opts c hv⟩
+
+/-- the hypothesis is satisfiable with a failing ssh option on a telnet driver -/
+example : ValidOn (reached .generic
+      [{ opt := .WithTransportType, args := [[Gen.Transport.TelnetTransport]] },
+       { opt := .WithSSHConfigFile, args := [[[47, 120]]], envOk := false }] defaults)
+    (effective .generic
+      [{ opt := .WithTransportType, args := [[Gen.Transport.TelnetTransport]] },
+       { opt := .WithSSHConfigFile, args := [[[47, 120]]], envOk := false }]) := by
+  rw [← validOnB_iff]
+  decide +kernel
 
 example : AllValid (effective .netconf [{ opt := .WithPort, args := [[[50,50]]] }]) := by
   intro o ho
